@@ -79,6 +79,11 @@ def run(res, programs, tier):
         if "dashu_int" in P.units:
             c16._r16_1c(res, P, P.name)
         c16._r16_4(res, P, P.name)
+    from . import c06
+    res.rule("R06.4", "(shared with C06) f32 / f64 sibling functions have the same structure")
+    for P in sub:
+        if "dashu_int" in P.units and "dashu_float" in P.units and P.role == "main":
+            c06._r06_4(res, P, P.name)
     from . import polarity
     for P in sub:
         if "dashu_float" in P.units and "dashu_ratio" in P.units and P.role == "main":
